@@ -684,6 +684,7 @@ pub enum ExecuteSequencesError {
     DecodebufferError(DecodeBufferError),
     NotEnoughBytesForSequence { wanted: usize, have: usize },
     ZeroOffset,
+    BlockTooBig { regenerated: usize, max: usize },
 }
 
 impl core::fmt::Display for ExecuteSequencesError {
@@ -700,6 +701,12 @@ impl core::fmt::Display for ExecuteSequencesError {
             }
             ExecuteSequencesError::ZeroOffset => {
                 write!(f, "Illegal offset: 0 found")
+            }
+            ExecuteSequencesError::BlockTooBig { regenerated, max } => {
+                write!(
+                    f,
+                    "Block would regenerate {regenerated} bytes. The maximum allowed is: {max}"
+                )
             }
         }
     }
